@@ -175,6 +175,27 @@ func RunFaulty(name string, sc Scenario, mode Mode, plan FaultPlan, opts verifmc
 		res.Failure = fmt.Sprintf("faults %v were injected on persist/load but the asynchronous error callback never fired", injLog)
 		return s, res
 	}
+	retain := sc.Opts.Retain
+	if retain == 0 {
+		retain = 1
+	}
+	if f := RetentionInvariant(dir.Trace, retain); f != "" {
+		res.Failure = f + fmt.Sprintf(" (faults injected: %v)", injLog)
+		res.Key = "retention-under-faults"
+		return s, res
+	}
+	if oh := dir.OpenHandles(); len(oh) > 0 {
+		res.Failure = fmt.Sprintf("file handles still open after the reader and the writer were closed: %v (faults injected: %v)", oh, injLog)
+		return s, res
+	}
+	if dir.Locked() {
+		res.Failure = "the directory lock is still held after the writer was closed"
+		return s, res
+	}
+	if mode.FilesOnly {
+		res.Outcome = strings.Join(injLog, ",")
+		return s, res
+	}
 	mode.CumulativeAck = true
 	fail, key := Judge(name, sc, mode, dir.Trace, recs, res)
 	if fail != "" {
